@@ -66,8 +66,11 @@ type builder struct {
 }
 
 func (b *builder) featureSet(fs []string) schema.FeatureSet {
-	if fs == nil {
-		return nil
+	if len(fs) == 0 {
+		if !b.d.EmptyContainers {
+			return nil
+		}
+		fs = []string{} // an empty, non-nil set
 	}
 	if !b.d.SharedFeat {
 		return schema.NewFeatureSet(fs...)
@@ -197,7 +200,7 @@ func (b *builder) applied(ds []AppliedDir) []*schema.Directive {
 }
 
 func (b *builder) inputValues(ivs []InputVal) map[string]*schema.InputValueDefinition {
-	if len(ivs) == 0 {
+	if len(ivs) == 0 && !b.d.EmptyContainers {
 		return nil
 	}
 	out := map[string]*schema.InputValueDefinition{}
